@@ -822,3 +822,20 @@ CHECKS = {'C01': check_C01, 'C02': check_C02, 'C05': check_C05, 'C06': check_C06
 
 def main(pid, tier):
     return CHECKS[pid](tier)
+
+
+def replay(pid, path):
+    """re-run the recorded operation sequence on the current tree and let TLC judge it again"""
+    case = json.load(open(path))['case']
+    wd = os.path.join(common.scratch('cache-replay'), 'r')
+    os.makedirs(wd, exist_ok=True)
+    t = cd.run_sequence(case['config'], case['ops'], wd)
+    if t is None:
+        raise common.MachineryError('the recorded configuration cannot be keyed on this tree')
+    verdicts, _ = common.validate_traces('CacheTrace', [_strip(t)], [pid])
+    if verdicts[0] is None:
+        print('replay: accepted on the current tree')
+        return common.EXIT_OK
+    print('VIOLATION property=%s replay=%s' % (pid, path))
+    print('  clauses: %s at event %d: %s' % (verdicts[0][1], verdicts[0][0], json.dumps(t['events'][verdicts[0][0] - 1], default=repr)[:500]))
+    return common.EXIT_VIOLATION
